@@ -50,7 +50,6 @@ __CPROVER_assigns(g_vh_calc_calls, g_vh_calc_pdu, g_vh_calc_alg, g_vh_calc_key, 
 #define C06_V2_CONTRACT(FN, PDU, OPT, REQTAG, RESPTAG, REQTMPL, RESPTMPL) \
 int FN(const PDU *t, KSI_HashAlgorithm algo_id, const char *key, KSI_DataHash **hmac) \
 __CPROVER_requires(g_ser_calls == 0 && g_hl_calls == 0 && g_mac_calls == 0 && g_mac_out == NULL && g_vh_free_calls == 0) \
-__CPROVER_requires(hmac == NULL || __CPROVER_is_fresh(hmac, sizeof(*hmac))) \
 __CPROVER_ensures(IMPLIES(t == NULL || t->ctx == NULL, __CPROVER_return_value == KSI_INVALID_ARGUMENT && g_mac_calls == 0)) \
 __CPROVER_ensures(IMPLIES(t != NULL && t->ctx != NULL && t->ctx->options[OPT] != KSI_PDU_VERSION_1 && t->ctx->options[OPT] != KSI_PDU_VERSION_2, \
 		__CPROVER_return_value == KSI_INVALID_FORMAT && g_mac_calls == 0)) \
